@@ -434,6 +434,12 @@ func (rs *runState) runC16Layout(idx int, lay c16Layout) *violationT {
 	shrinkShort := coHeader("package " + pkgName + "\n\nimport . \"github.com/goghcrow/go-co\"\n\nfunc ShrinkA(n int) Iter[int] {\n\tYield(n)\n\treturn nil\n}\n")
 	files[pkgDir+"shrink_co.go"] = shrinkLong
 	expected[pkgDir+"shrink.go"] = true
+	// directive comments on bystander declarations of a processed file (go:embed needs its directive to keep the value;
+	// the file also contains a generator literal, whose attached source comment makes the file carry a comment list)
+	files[pkgDir+"embed_data.txt"] = "embedded payload\n"
+	files[pkgDir+"embed_co.go"] = coHeader("package " + pkgName + "\n\nimport (\n\t_ \"embed\"\n\n\t. \"github.com/goghcrow/go-co\"\n)\n\n//go:embed embed_data.txt\nvar EmbeddedData string\n\n// EmbedGen has a doc comment.\n//\n//go:noinline\nfunc EmbedGen(n int) Iter[string] {\n\tf := func() Iter[string] {\n\t\tYield(EmbeddedData)\n\t\treturn nil\n\t}\n\tfor i := 0; i < n; i++ {\n\t\tYieldFrom(f())\n\t}\n\treturn nil\n}\n")
+	files[pkgDir+"embed_test.go"] = "package " + pkgName + "\n\nimport \"testing\"\n\nfunc TestEmbeddedData(t *testing.T) {\n\tif EmbeddedData != \"embedded payload\\n\" {\n\t\tt.Fatalf(\"EmbeddedData = %q: the go:embed directive of a bystander declaration was lost\", EmbeddedData)\n\t}\n\tn := 0\n\tfor it := EmbedGen(2); it.MoveNext(); n++ {\n\t\tif it.Current() != EmbeddedData {\n\t\t\tt.Fatalf(\"EmbedGen yielded %q\", it.Current())\n\t\t}\n\t}\n\tif n != 2 {\n\t\tt.Fatalf(\"EmbedGen yielded %d values\", n)\n\t}\n}\n"
+	expected[pkgDir+"embed.go"] = true
 	subDir := ""
 	if len(lay.SubPkg) > 0 {
 		subDir = pkgDir + "sub/"
